@@ -25,7 +25,7 @@ class Ob:
     def __init__(self, id, props, tu, roots, harness, entry='harness', spec=None, enforce=None, replace=(),
                  tier='U', unwind=None, unwindset=None, defines=None, cfg='kernel', timeout=300, quick=True,
                  covers=0, expect_loops=(), note='', flags=(), bounds=None, loop_contracts=True, object_bits=12,
-                 expected_fail=(), kissat=False, spec_text='', includes=(), copies=(), stubs=None, inline_vec=False, adaptive_unwind=True, inits=None, prebuild_shape=None, unwind_start=3, quick_for=None, preamble='', mem_gb=None, circ_class='TopologyKernel', preamble_after=''):
+                 expected_fail=(), kissat=False, spec_text='', includes=(), copies=(), stubs=None, inline_vec=False, adaptive_unwind=True, inits=None, prebuild_shape=None, unwind_start=3, quick_for=None, preamble='', mem_gb=None, circ_class='TopologyKernel', preamble_after='', py_check=None):
         self.id = id; self.props = props; self.tu = tu; self.roots = roots; self.harness = harness; self.entry = entry
         self.mesh_harness = None
         if not isinstance(harness, str):
@@ -34,7 +34,7 @@ class Ob:
         self.unwind = unwind; self.unwindset = unwindset; self.defines = defines or {}; self.cfg = cfg
         self.timeout = timeout; self.quick = quick; self.covers = covers; self.expect_loops = expect_loops
         self.note = note; self.flags = list(flags); self.bounds = bounds or {}; self.loop_contracts = loop_contracts
-        self.object_bits = object_bits; self.expected_fail = expected_fail; self.kissat = kissat; self.spec_text = spec_text; self.includes = list(includes); self.copies = list(copies); self.stubs = stubs or {}; self.inline_vec = inline_vec; self.adaptive_unwind = adaptive_unwind; self.inits = inits or {}; self.prebuild_shape = prebuild_shape; self.unwind_start = unwind_start; self.quick_for = quick_for; self.preamble = preamble; self.mem_gb = mem_gb; self.circ_class = circ_class; self.preamble_after = preamble_after
+        self.object_bits = object_bits; self.expected_fail = expected_fail; self.kissat = kissat; self.spec_text = spec_text; self.includes = list(includes); self.copies = list(copies); self.stubs = stubs or {}; self.inline_vec = inline_vec; self.adaptive_unwind = adaptive_unwind; self.inits = inits or {}; self.prebuild_shape = prebuild_shape; self.unwind_start = unwind_start; self.quick_for = quick_for; self.preamble = preamble; self.mem_gb = mem_gb; self.circ_class = circ_class; self.preamble_after = preamble_after; self.py_check = py_check
 
 # ---------------------------------------------------------------------------------------------- AST cache
 TUS = {'kernel': 'tu/kernel.cc', 'tethex': 'tu/tethex.cc', 'ovmb': 'tu/ovmb.cc', 'vector': 'tu/vector.cc'}
@@ -162,6 +162,15 @@ def run_ob(ob, tier, workdir):
     d = os.path.join(workdir, re.sub(r'[^A-Za-z0-9_.-]', '_', ob.id))
     shutil.rmtree(d, ignore_errors=True); os.makedirs(d)
     log = os.path.join(d, 'log.txt'); res['log'] = log
+    if ob.py_check is not None:
+        # static supporting fact computed from the same clang AST (no solver): tier 'S', never counted as proved
+        try:
+            ob.py_check(ob, res, get_index(ob.tu))
+        except Exception as e:
+            res['status'] = 'undecided'; res['reason'] = 'static scan failed: ' + repr(e)
+        open(log, 'w').write(json.dumps(res['results'], indent=1))
+        res['wall_s'] = time.time() - t0
+        return res
     try:
         ix = get_index(ob.tu)
         contracts = parse_spec(specs_text(ob.spec) + '\n' + ob.spec_text)
@@ -178,6 +187,7 @@ def run_ob(ob, tier, workdir):
         for ck in ob.copies:
             unit.em.fc = None
             unit.em.copy_helper(unit.em.canon(parse_type(ck)))
+            unit.em.deq_helper(unit.em.canon(parse_type(ck)), shallow=True)      # generated equality over EVERY field of the extracted struct (containers by size): frame checks
         # circulator placeholders in the harness: @TYPE(f)@ @INC(f)@ @DEC(f)@ for a TopologyKernel factory function f
         circ = {}
         for mm in set(re.findall(r'@(?:TYPE|INC|DEC)\((\w+)\)@', ob.harness)):
@@ -477,9 +487,16 @@ def write_evidence(prop, tier, seed, pairs, wall, nviol=0, undecided=None, known
     total = sum(len(r['results']) for o, r in pairs)
     obligations = total - len(kn)          # known findings are reported separately, never counted as discharged
     discharged = sum(len([x for x in r['results'] if x[2] == 'SUCCESS']) for o, r in pairs if r['status'] in ('pass', 'fail'))
-    u = [(o, r) for o, r in pairs if o.tier == 'U']; b = [(o, r) for o, r in pairs if o.tier != 'U']
+    u = [(o, r) for o, r in pairs if o.tier == 'U']; b = [(o, r) for o, r in pairs if o.tier not in ('U', 'S')]; st = [(o, r) for o, r in pairs if o.tier == 'S']
     all_pass = pairs and obligations == discharged and all(r['status'] in ('pass', 'fail') for o, r in pairs) and not nviol
-    level = 'proof' if (all_pass and not b) else 'model_checking'
+    level = 'proof' if (all_pass and not b and not st) else 'model_checking'
+    def backend_of(o):
+        if o.tier == 'S': return 'clang-14 AST scan (no solver; static supporting fact)'
+        if '--z3' in o.flags: return 'z3 4.8.12 through cbmc --z3' + (' --fpa' if '--fpa' in o.flags else '')
+        if '--cvc5' in o.flags: return 'cvc5 1.0 through cbmc --cvc5' + (' --fpa' if '--fpa' in o.flags else '')
+        return 'cbmc-6.11.0 built-in SAT (minisat2)'
+    backends = {}
+    for o, r in pairs: backends[backend_of(o)] = backends.get(backend_of(o), 0) + len(r['results'])
     funcs = {}
     for o, r in pairs:
         for f in r['functions']: funcs[f['c']] = f
@@ -498,7 +515,7 @@ def write_evidence(prop, tier, seed, pairs, wall, nviol=0, undecided=None, known
                                          extracted_functions=r.get('n_extracted', 0), refs_emitted_as_pointers=r.get('ptr_refs', [])) for o, r in pairs],
                proved_unbounded=sum(len(r['results']) for o, r in u if r['status'] == 'pass'),
                bounded=sum(len(r['results']) for o, r in b if r['status'] == 'pass'),
-               backend={'cbmc-6.11.0 built-in SAT (minisat2)': obligations},
+               backend=backends, static_facts=sum(len(r['results']) for o, r in st if r['status'] == 'pass'),
                solver_s=round(sum(r['solver_s'] for o, r in pairs), 2),
                vacuity=dict(cover_points=sum(r['covers'][0] for o, r in pairs), satisfied=sum(r['covers'][1] for o, r in pairs),
                             loop_step_obligations=sum(r['loops'] for o, r in pairs)),
